@@ -73,6 +73,12 @@ func (c *ExecCtx) evalCall(st *State, call *ast.CallExpr) []Val {
 		fv := c.eval(st, fun)
 		return c.dynamicCall(st, fv, call)
 	}
+	if fn.FullName() == "sort.Sort" && len(call.Args) == 1 {
+		if c.sortSort(st, call) {
+			c.runCallAnchors(st, fn, call, nil)
+			return nil
+		}
+	}
 	sig := fn.Type().(*types.Signature)
 	args := c.evalArgs(st, call, sig, nil)
 	res := c.dispatch(st, fn, recv, args, call.Pos(), call)
@@ -1152,4 +1158,102 @@ func (c *ExecCtx) bindHeader(fs *FuncSpec, recv *Val, args []Val) map[string]Val
 		}
 	}
 	return binds
+}
+
+
+// sortSort models sort.Sort(data) through the CONTRACTS of data's Len, Less
+// and Swap methods: afterwards the slice fields Swap may modify hold a
+// permutation (skolem functions pi/inv) of their old contents, and for all
+// i<j, Less(j,i) is false. Assumption (stdlib): sort.Sort only calls
+// Len/Less/Swap with in-range indices and terminates sorted.
+func (c *ExecCtx) sortSort(st *State, call *ast.CallExpr) bool {
+	u := c.u
+	e := u.eng
+	data := c.eval(st, call.Args[0])
+	find := func(name string) (*types.Func, *FuncSpec) {
+		obj, _, _ := types.LookupFieldOrMethod(data.Ty, true, c.pkg.Types, name)
+		fn, ok := obj.(*types.Func)
+		if !ok {
+			return nil, nil
+		}
+		return fn, e.specs.Funcs[funcKey(fn)]
+	}
+	lenFn, lenSpec := find("Len")
+	lessFn, lessSpec := find("Less")
+	swapFn, swapSpec := find("Swap")
+	if lenSpec == nil || lessSpec == nil || swapSpec == nil || !swapSpec.HasModifies {
+		return false
+	}
+	e.externUsed["sort.Sort (permutation + sortedness via Len/Less/Swap contracts)"] = true
+	n := c.applyContract(st, lenSpec, lenFn, &data, nil, call.Pos())[0].T
+	n = u.define(st, "sortn", n)
+	// Less/Swap preconditions for every in-range pair (checked in the
+	// pre-sort state; they must be permutation-invariant: listed assumption)
+	{
+		a0, b0 := u.fresh("sa", SInt), u.fresh("sb", SInt)
+		ps := st.fork()
+		ps.assumeT(And(Ge(a0, IntLit(0)), Lt(a0, n), Ge(b0, IntLit(0)), Lt(b0, n)))
+		for _, sp := range []struct {
+			fs *FuncSpec
+			fn *types.Func
+		}{{lessSpec, lessFn}, {swapSpec, swapFn}} {
+			pb := c.bindHeader(sp.fs, &data, []Val{{a0, types.Typ[types.Int]}, {b0, types.Typ[types.Int]}})
+			penv := &SpecEnv{c: c, fs: sp.fs, binds: pb, fnObj: sp.fn}
+			for _, cl := range sp.fs.Requires {
+				u.oblige(ps, "pre", penv.evalBool(ps, ps, cl.Expr, cl.Where), call.Pos(), "sort.Sort: precondition of "+sp.fn.Name()+" for all in-range pairs: "+cl.Src)
+			}
+		}
+	}
+	e.nsym++
+	pi := fmt.Sprintf("sortpi@%d", e.nsym)
+	inv := fmt.Sprintf("sortinv@%d", e.nsym)
+	e.d.Fun(pi, []string{SInt}, SInt)
+	e.d.Fun(inv, []string{SInt}, SInt)
+	u.lastSortPi, u.lastSortInv = pi, inv
+	i := Sym("i!p", SInt)
+	inr := func(x *Term) *Term { return And(Ge(x, IntLit(0)), Lt(x, n)) }
+	st.assumeT(Forall([]*Term{i}, Imp(inr(i), And(inr(App(pi, SInt, i)), Eq(App(inv, SInt, App(pi, SInt, i)), i))), []*Term{App(pi, SInt, i)}))
+	st.assumeT(Forall([]*Term{i}, Imp(inr(i), And(inr(App(inv, SInt, i)), Eq(App(pi, SInt, App(inv, SInt, i)), i))), []*Term{App(inv, SInt, i)}))
+	// permute the slice fields Swap modifies
+	binds := c.bindHeader(swapSpec, &data, []Val{{IntLit(0), types.Typ[types.Int]}, {IntLit(0), types.Typ[types.Int]}})
+	env := &SpecEnv{c: c, fs: swapSpec, binds: binds, fnObj: swapFn}
+	for _, m := range swapSpec.Modifies {
+		sel, ok := m.Expr.(*ast.SelectorExpr)
+		if !ok {
+			u.unsupportedf(call.Pos(), "sort.Sort: Swap modifies %s", m.Src)
+			return false
+		}
+		base := env.eval(st, st, sel.X)
+		obj, _, _ := types.LookupFieldOrMethod(base.Ty, true, env.anyPkg(base.Ty), sel.Sel.Name)
+		f, ok := obj.(*types.Var)
+		if !ok {
+			return false
+		}
+		if _, isSl := unalias(f.Type()).Underlying().(*types.Slice); !isSl {
+			u.unsupportedf(call.Pos(), "sort.Sort: Swap modifies non-slice field %s", m.Src)
+			return false
+		}
+		st0 := derefType(base.Ty)
+		hn := e.tm.HeapName(st0, f.Name())
+		fs := c.sortOfType(f.Type())
+		h := u.heapGet(st, hn, ArraySort(SInt, fs))
+		oldS := u.define(st, "sortold", Select(h, base.T))
+		na := u.fresh("sortarr", slArr(oldS).Sort)
+		st.assumeT(Forall([]*Term{i}, Imp(inr(i), Eq(Select(na, i), Select(slArr(oldS), App(pi, SInt, i)))), []*Term{Select(na, i)}))
+		st.assumeT(Forall([]*Term{i}, Imp(Not(inr(i)), Eq(Select(na, i), Select(slArr(oldS), i))), []*Term{Select(na, i)}))
+		u.heapSet(st, hn, Store(h, base.T, mkSlice(fs, na, slLen(oldS), slCap(oldS), slNil(oldS))))
+	}
+	// sortedness through Less's postcondition
+	a, b := Sym("a!s", SInt), Sym("b!s", SInt)
+	r := True
+	lb := c.bindHeader(lessSpec, &data, []Val{{b, types.Typ[types.Int]}, {a, types.Typ[types.Int]}})
+	lenv := &SpecEnv{c: c, fs: lessSpec, binds: lb, fnObj: lessFn}
+	lenv.bindResults([]Val{{r, types.Typ[types.Bool]}})
+	var ens []*Term
+	for _, cl := range lessSpec.Ensures {
+		ens = append(ens, lenv.evalBool(st, st, cl.Expr, cl.Where))
+	}
+	// Less(b,a) is false: its postcondition with result=true cannot hold
+	st.assumeT(Forall([]*Term{a, b}, Imp(And(Ge(a, IntLit(0)), Lt(a, b), Lt(b, n)), Not(And(ens...)))))
+	return true
 }
